@@ -74,6 +74,8 @@ def worker_main(argv):
                 break
             rng = case_rng(pid, seed, i)
             t0 = time.time()
+            del run.CONTRACT_FAILS[:]
+            run.CONTRACT_COUNTS.clear()
             try:
                 case = prop.gen_case(rng, i, tier)
                 if case is None:
@@ -91,6 +93,18 @@ def worker_main(argv):
             res['t'] = round(time.time() - t0, 4)
             res.setdefault('violations', [])
             res.setdefault('obs', {})
+            # contracts bound in every forked run (section 2, E2): counts go
+            # to the evidence, failures are violations of this case
+            for k, n in run.CONTRACT_COUNTS.items():
+                res['obs']['contract_evals:' + k] = n
+            have = set(v.get('mechanism') for v in res['violations'])
+            for c in run.CONTRACT_FAILS:
+                m = 'contract:' + c.get('contract', '?')
+                if m not in have:
+                    have.add(m)
+                    res['violations'].append({'mechanism': m, 'detail': c})
+                    if res.get('verdict') == 'ok':
+                        res['verdict'] = 'violation'
             res.setdefault('features', [])
             res.setdefault('nontrivial', False)
             if 'key' not in res:
@@ -171,6 +185,92 @@ def run_check(pid, tier, seed, jobs, budget, ncases):
     results.sort(key=lambda r: r['i'])
     return finish(prop, pid, tier, seed, cfg, results, worker_fail, ncases,
                   time.time() - t0)
+
+
+_UNSHARE = None
+
+
+def unshare_available():
+    global _UNSHARE
+    if _UNSHARE is None:
+        try:
+            r = subprocess.run(['unshare', '-m', '--propagation', 'private',
+                                'sh', '-c', 'mkdir -p /dev/shm/.vfprobe && '
+                                'mount -t tmpfs tmpfs /dev/shm/.vfprobe'],
+                               capture_output=True, timeout=10)
+            _UNSHARE = r.returncode == 0
+        except Exception:
+            _UNSHARE = False
+        try:
+            os.rmdir('/dev/shm/.vfprobe')
+        except OSError:
+            pass
+    return _UNSHARE
+
+
+_SKIP_OBS = ('op_', 'contract_evals:', 'c_', 'crash_before_')
+
+
+def comparable(obs):
+    return dict((k, v) for k, v in (obs or {}).items()
+                if k != 'events' and not k.startswith(_SKIP_OBS))
+
+
+def real_mount_crosscheck(prop, pid, tier, seed, results, n):
+    """replay n cases on real nested tmpfs mounts in a private mount
+    namespace and compare the oracle's outcome with the virtual-mount run"""
+    info = {'requested': n, 'available': unshare_available(), 'replayed': 0,
+            'agree': 0, 'disagreements': []}
+    if not n or not info['available']:
+        return info
+    picks = [r for r in results if r.get('nontrivial') and
+             r.get('verdict') in ('ok', 'violation')]
+    step = max(1, len(picks) // n)
+    picks = picks[::step][:n]
+    items = []
+    for r in picks:
+        case = prop.gen_case(case_rng(pid, seed, r['i']), r['i'], tier)
+        if case is not None:
+            items.append({'i': r['i'], 'case': case})
+    inp = os.path.join(OUT, 'work', 'real-%s-%d.in.json' % (pid, os.getpid()))
+    outp = inp.replace('.in.json', '.out.json')
+    with open(inp, 'w') as f:
+        json.dump(items, f, default=str)
+    env = dict(os.environ)
+    env['PYTHONPATH'] = VERIF + os.pathsep + env.get('PYTHONPATH', '')
+    env['PYTHONDONTWRITEBYTECODE'] = '1'
+    env['PYTHONUTF8'] = '1'
+    env.setdefault('PYTHONHASHSEED', '0')
+    try:
+        p = subprocess.run(['unshare', '-m', '--propagation', 'private',
+                            sys.executable, '-m', 'vf.realrun', pid, inp, outp],
+                           env=env, cwd=VERIF, capture_output=True, timeout=600)
+        real = json.load(open(outp))
+    except Exception as e:
+        info['error'] = repr(e)[:300]
+        return info
+    finally:
+        for x in (inp, outp):
+            try:
+                os.unlink(x)
+            except OSError:
+                pass
+    by_i = dict((r['i'], r) for r in results)
+    for rr in real:
+        v = by_i[rr['i']]
+        info['replayed'] += 1
+        vm = sorted(x.get('mechanism') for x in v.get('violations') or [])
+        if rr['verdict'] == v.get('verdict') and rr['mechanisms'] == vm and \
+                comparable(rr['obs']) == comparable(v.get('obs')):
+            info['agree'] += 1
+        else:
+            a, b = comparable(v.get('obs')), comparable(rr['obs'])
+            info['disagreements'].append({
+                'index': rr['i'], 'virtual': [v.get('verdict'), vm],
+                'real': [rr['verdict'], rr['mechanisms'], rr.get('why')],
+                'obs_diff': dict((k, [a.get(k), b.get(k)])
+                                 for k in set(a) | set(b) if a.get(k) != b.get(k))})
+    return info
 
 
 def finish(prop, pid, tier, seed, cfg, results, worker_fail, ncases, wall):
@@ -255,6 +355,11 @@ def finish(prop, pid, tier, seed, cfg, results, worker_fail, ncases, wall):
     }
     if hasattr(prop, 'extra_evidence'):
         cov.update(prop.extra_evidence(results))
+    rm = None
+    if cfg.get('real_sample') and not os.environ.get('VERIF_NO_REAL_MOUNTS'):
+        rm = real_mount_crosscheck(prop, pid, tier, seed, results,
+                                   cfg['real_sample'])
+        cov['real_mount_crosscheck'] = rm
     ev = {
         'property_id': pid, 'tier': tier, 'seed': seed,
         'level': cfg.get('level', 'exploration'),
@@ -269,6 +374,9 @@ def finish(prop, pid, tier, seed, cfg, results, worker_fail, ncases, wall):
     print('%s tier=%s seed=%d cases=%d/%d distinct_nontrivial=%d '
           'inconclusive=%d wall=%.1fs' % (pid, tier, seed, len(results),
                                           ncases, len(keys), n_incon, wall))
+    if rm:
+        print('  real-mount cross-check: available=%s replayed=%d agree=%d' % (
+            rm['available'], rm['replayed'], rm['agree']))
     top = sorted(obs.items(), key=lambda kv: -kv[1])[:14]
     print('  observed: ' + ', '.join('%s=%d' % kv for kv in top))
     for m, h in sorted(known_hits.items()):
@@ -294,6 +402,11 @@ def finish(prop, pid, tier, seed, cfg, results, worker_fail, ncases, wall):
             n_incon, json.dumps(incon_why)[:300]))
     if not results:
         reasons.append('no case ran')
+    if rm and rm.get('disagreements'):
+        reasons.append('virtual and real mounts disagree on %d of %d replayed '
+                       'cases (shim fidelity): %s' % (
+                           len(rm['disagreements']), rm['replayed'],
+                           json.dumps(rm['disagreements'][:2], default=str)[:600]))
     if reasons:
         print('INCONCLUSIVE property=%s reason=%s' % (pid, ' | '.join(reasons)))
         return 2
